@@ -150,13 +150,13 @@ CLAIMS['C08'] = dict(category='proof', ref='5 Core E, 8 C08', text=_BROKER_TEXT 
     "C08_refines_reference: after any admitted history the retained trie is the reference broker's store and the deliveries after a SUBACK are exactly (as a multiset, DUP/id free) the messages it demands, RETAIN=1.") + _REFINE + _PARTIAL_SCHED +
     " Byte identity of payloads across ring reuse and retained updates concurrent to subscriptions are memory/race facts outside the pure model (correspondence / C18).")
 CLAIMS['C09'] = dict(category='proof', ref='5 Core E, 8 C09', text=_BROKER_TEXT % (
-    "Theorems (19): DISCONNECT emits only the close, nothing is published, later events for the connection are silent (C09_disconnect_no_will, "
+    "Theorems (20): DISCONNECT emits only the close, nothing is published, later events for the connection are silent (C09_disconnect_no_will, "
     "C09_disconnect_after_history); an abnormal end emits the close followed by exactly the fan-out of the will, once (C09_will_published_once, "
     "C09_no_will_no_publish, C09_stopBase); after an accepted CONNECT, fresh or resumed, the session's will is THIS CONNECT's (topic, payload, QoS, "
     "retain) (C09_will_is_current_connect, C09_initWill_fields, C09_current_will_published, C09_will_of_own_connect over quiet histories); no other event "
     "reads a will (C09_only_stop_reads_will, C09_stop_reads_will_only_with_flag, C09_will_kept_step); invariant (C09_inv). "
     "C09_refines_reference: after any admitted history DISCONNECT publishes nothing and any other end publishes exactly the will of the connection's own CONNECT (the reference broker's record), accepted by its fan-out.") + _REFINE + _PARTIAL_SCHED +
-    " Keep-alive expiry as a cause is an event of the model; its timing is C19. A CONNECT with the client identifier of a live connection ends that connection (take-over, MQTT-3.1.4-2) and publishes ITS will before the handshake: C09_only_stop_reads_will excludes exactly these first packets (`mayStop`), `quiet` histories treat such a CONNECT as an end of the connection (C09_affectsWill_iff), and C09_refines_reference / C10_refines_reference cover it for all admitted histories.")
+    " Keep-alive expiry as a cause is an event of the model; its timing is C19. A CONNECT with the client identifier of a live connection ends that connection (take-over, MQTT-3.1.4-2) and publishes ITS will before the handshake: C09_only_stop_reads_will excludes exactly these first packets (`mayStop`), `quiet` histories treat such a CONNECT as an end of the connection (C09_affectsWill_iff), and for all admitted histories C09_take_over_is_an_end says that such a CONNECT emits exactly the outputs of the end of that connection (`.close`) followed by its CONNACK, in the model and in the reference broker, so C09_refines_reference applies to the connection taken over (C10_refines_reference: the sessions side).")
 CLAIMS['C10'] = dict(category='proof', ref='5 Core E, 8 C10', text=_BROKER_TEXT % (
     "Theorems (17): SessionPresent=1 iff CleanSession=0, non-empty id and the store holds a session kept from a CleanSession=0 connection "
     "(C10_session_present); a clean CONNECT starts from a fresh empty session, tries unchanged (C10_clean_starts_empty); after a clean session ends the "
